@@ -430,7 +430,26 @@ class Ctx:
     return q.__index__()
 
   def hash_of(self, x):
-    raise Unsupported("hash() of a symbolic real")
+    """hash() of a symbolic real (a dict / set key, a memo-table lookup).  Equal values must hash equally:
+    * when the path condition determines the value (one solver query), the hash is the hash of that number - the same
+      as natively, so the proxy is found under a concrete key of equal value;
+    * otherwise every undetermined proxy gets the same constant, so that lookups among symbolic keys fall through to
+      `==`, which is a solver decision (both outcomes explored).  What this cannot see: an undetermined proxy colliding
+      with a *concrete* key of equal value - the path witness (native run on the model values) is the check for that."""
+    r, m = self.check([])
+    if r == "sat" and m is not None:
+      try:
+        nv = _num_to_fraction(m.eval(x.n, model_completion=True)); dv = _num_to_fraction(m.eval(x.den(), model_completion=True))
+        if dv != 0:
+          val = nv / dv
+          differ = x.n * z3.RealVal(str(dv)) != z3.RealVal(str(nv)) * x.den()
+          r2, _ = self.check([differ], want_model=False)
+          if r2 == "unsat":
+            return hash(val)
+      except (EngineError, z3.Z3Exception):
+        pass
+    self.symbolic_hash_used = True
+    return 0x5EED0
 
   # ---- text ----------------------------------------------------------
   def _render_key(self, proxy):
